@@ -101,3 +101,40 @@ package service
 //@   callsite NewClientCipherConfig: forall j int :: 0 <= j && j < len(cc.IPSKs) ==> len(cc.IPSKs[j]) == ss2022.pskLen(cc.Protocol)
 //@   callsite NewClientCipherConfig: samearray(arg0, cc.PSK) && sliceoff(arg0) == sliceoff(cc.PSK) && len(arg0) == len(cc.PSK) && samearray(arg1, cc.IPSKs) && sliceoff(arg1) == sliceoff(cc.IPSKs) && len(arg1) == len(cc.IPSKs)
 //@   ensures isnil(err) ==> cc.Network == "ip" || cc.Network == "ip4" || cc.Network == "ip6"
+
+// ---------------------------------------------------------------------------
+// UDP relay, reply direction of one NAT session (properties C11, C05): every reply read from the session's
+// upstream socket is unpacked, re-packed and written to the client that owns the session, for every
+// (upstream client protocol, server protocol) pair.
+// ---------------------------------------------------------------------------
+
+// What the relay needs of the objects behind its interfaces (established where the session is created).
+//@ pure clientUnpackerWF(u zerocopy.ClientUnpacker) bool = !isnil(u) && ifaceptr(u) != 0 && (dyntype(u, direct.DirectPacketClientUnpacker) || dyntype(u, *direct.ShadowsocksNonePacketClientUnpacker) || dyntype(u, *direct.Socks5PacketClientUnpacker) || dyntype(u, *ss2022.ShadowPacketClientUnpacker)) && (dyntype(u, *ss2022.ShadowPacketClientUnpacker) ==> ss2022.spcuWF(unbox(u, *ss2022.ShadowPacketClientUnpacker)))
+//@ pure serverPackerWF(p zerocopy.ServerPacker) bool = !isnil(p) && ifaceptr(p) != 0 && (dyntype(p, *direct.DirectPacketServerPackUnpacker) || dyntype(p, direct.ShadowsocksNonePacketServerPacker) || dyntype(p, direct.Socks5PacketServerPacker) || dyntype(p, *ss2022.ShadowPacketServerPacker)) && (dyntype(p, *direct.DirectPacketServerPackUnpacker) ==> (unbox(p, *direct.DirectPacketServerPackUnpacker).targetAddrOnly ==> unbox(p, *direct.DirectPacketServerPackUnpacker).targetAddr.IsIP()))
+
+//@ func (*UDPNATRelay).relayNatConnToServerConnGeneric
+//@   requires !isnil(s) && 1280 <= s.mtu && s.mtu <= 65535
+//@   requires 0 <= downlink.natConnRecvBufSize && downlink.natConnRecvBufSize <= 65535
+//@   requires clientUnpackerWF(downlink.natConnUnpacker) && serverPackerWF(downlink.serverConnPacker)
+//@   requires !isnil(downlink.clientPktinfo)
+//@   loop 0 invariant clientUnpackerWF(downlink.natConnUnpacker) && serverPackerWF(downlink.serverConnPacker)
+//@   loop 0 invariant s.mtu == pre(s.mtu)
+//@   callsite PackInPlace: 0 <= payloadStart && 0 <= payloadLength && payloadStart + payloadLength + serverConnPackerInfo.Headroom.Rear <= len(packetBuf)
+//@   callsite PackInPlace: dyntype(downlink.serverConnPacker, direct.ShadowsocksNonePacketServerPacker) ==> payloadStart >= socks5.LengthOfAddrFromAddrPort(payloadSourceAddrPort)
+//@   callsite PackInPlace: dyntype(downlink.serverConnPacker, direct.Socks5PacketServerPacker) ==> payloadStart >= 3 + socks5.LengthOfAddrFromAddrPort(payloadSourceAddrPort)
+//@   callsite PackInPlace: dyntype(downlink.serverConnPacker, *ss2022.ShadowPacketServerPacker) ==> payloadStart >= 16 + 19 + socks5.LengthOfAddrFromAddrPort(payloadSourceAddrPort)
+//@   callsite WriteMsgUDPAddrPort: arg3 == downlink.clientAddrPort
+
+// The same for a session-keyed (Shadowsocks 2022) relay (that the reply address is the latest one published
+// through the atomic pointer is a statement about another goroutine's stores and is not covered).
+//@ func (*UDPSessionRelay).relayNatConnToServerConnGeneric
+//@   requires !isnil(s) && 1280 <= s.mtu && s.mtu <= 65535
+//@   requires 0 <= downlink.natConnRecvBufSize && downlink.natConnRecvBufSize <= 65535
+//@   requires clientUnpackerWF(downlink.natConnUnpacker) && serverPackerWF(downlink.serverConnPacker)
+//@   loop 0 invariant clientUnpackerWF(downlink.natConnUnpacker) && serverPackerWF(downlink.serverConnPacker)
+//@   loop 0 invariant s.mtu == pre(s.mtu) && 0 <= maxClientPacketSize && maxClientPacketSize <= 65535
+//@   callsite PackInPlace: 0 <= payloadStart && 0 <= payloadLength && payloadStart + payloadLength + serverConnPackerInfo.Headroom.Rear <= len(packetBuf)
+//@   callsite PackInPlace: dyntype(downlink.serverConnPacker, direct.ShadowsocksNonePacketServerPacker) ==> payloadStart >= socks5.LengthOfAddrFromAddrPort(payloadSourceAddrPort)
+//@   callsite PackInPlace: dyntype(downlink.serverConnPacker, direct.Socks5PacketServerPacker) ==> payloadStart >= 3 + socks5.LengthOfAddrFromAddrPort(payloadSourceAddrPort)
+//@   callsite PackInPlace: dyntype(downlink.serverConnPacker, *ss2022.ShadowPacketServerPacker) ==> payloadStart >= 16 + 19 + socks5.LengthOfAddrFromAddrPort(payloadSourceAddrPort)
+//@   callsite WriteMsgUDPAddrPort: arg3 == clientAddrPort
